@@ -11,13 +11,20 @@
 //          reuse = several doc ops (each optionally followed by one cut op): ONE XdlParser object decodes them in turn, with
 //                  reset() between documents; every result equals a fresh parser's.  reset() is only relied upon after a
 //                  COMPLETE document (see C06_walk.h); after a rejected one the session continues on a new parser object.
+//          paths = op `path kind reader`: Json::read (reader 0) / Xdl::read (1), the chunked decoder behind a path, on a path
+//                  that is 0 a directory, 1 a directory with a trailing slash, 2 missing, 3 an empty file, 4 /dev/null, 5 a FIFO
+//                  whose writer closes without writing, 6 a file without read permission (skipped when running as root),
+//                  7 a directory reached through a symbolic link: the call RETURNS (watchdog 20 s), no memory error, and a
+//                  following read of a regular file still gives its document
 //          every part with an accepted document also runs a short reuse round on that document (decode, reset, chunks, reset, decode)
 #include "common/vfrc.h"
 #include "common/ref_json.h"
 #include "common/ref_codec.h"
 #include "C06_walk.h"
+#include "common/ref_io.h"
 #include <cmath>
 #include <memory>
+#include <thread>
 
 using namespace asl;
 
@@ -198,8 +205,106 @@ static void check_cuts(const std::string& text, const Var& whole, const vf::Case
 	}
 }
 
+// ---- the file readers on paths that cannot be read (totality: "terminate ... on any input")
+
+static char g_hang_msg[400];
+static void hang_handler(int)
+{
+	// the read did not come back: leave the case on disk, say so (the driver shows the HANG-DIAG line) and fail the case
+	vf::flush_current();
+	if (write(1, g_hang_msg, strlen(g_hang_msg)) < 0) {}
+	_exit(1);
+}
+
+static void run_path_case(const vf::Op& o)
+{
+	int kind = (int)(((o.i(0) % 8) + 8) % 8);
+	int reader = (int)(o.i(1) & 1);
+	static const char* KIND[] = {"a directory", "a directory with a trailing slash", "a missing file", "an empty file", "/dev/null", "a FIFO whose writer closes without writing",
+	                             "a file without read permission", "a symbolic link to a directory"};
+	std::string dir = ref::tmpdir() + "/paths";
+	mkdir(dir.c_str(), 0755);
+	std::string path;
+	std::vector<std::string> cleanup;
+	switch (kind) {
+	case 0: path = dir; break;
+	case 1: path = dir + "/"; break;
+	case 2:
+		path = dir + "/missing";
+		unlink(path.c_str());
+		break;
+	case 3:
+		path = dir + "/empty";
+		ref::spit(path, "");
+		cleanup.push_back(path);
+		break;
+	case 4: path = "/dev/null"; break;
+	case 5:
+		path = dir + "/fifo";
+		unlink(path.c_str());
+		VF_CHECK(mkfifo(path.c_str(), 0644) == 0, "harness: mkfifo failed");
+		cleanup.push_back(path);
+		break;
+	case 6:
+		if (geteuid() == 0) { // root reads everything: the case cannot be built
+			vf::stats().cls("paths.skipped_unreadable_file(running_as_root)");
+			return;
+		}
+		path = dir + "/noperm";
+		ref::spit(path, "[1,2]");
+		chmod(path.c_str(), 0);
+		cleanup.push_back(path);
+		break;
+	default:
+		path = dir + "/dirlink";
+		unlink(path.c_str());
+		VF_CHECK(symlink(".", path.c_str()) == 0, "harness: symlink failed");
+		cleanup.push_back(path);
+	}
+	std::thread writer;
+	if (kind == 5)
+		writer = std::thread([path]() { // opens the FIFO for writing as soon as a reader is there, writes nothing, closes
+			int fd = -1;
+			for (int i = 0; i < 10000 && fd < 0; i++) {
+				fd = open(path.c_str(), O_WRONLY | O_NONBLOCK);
+				if (fd < 0)
+					usleep(1000);
+			}
+			if (fd >= 0)
+				close(fd);
+		});
+	snprintf(g_hang_msg, sizeof g_hang_msg, "HANG-DIAG: %s on %s did not return within 20 s\nFAIL %s on %s did not return within 20 s (the reader must terminate on every input)\n",
+	         reader ? "Xdl::read" : "Json::read", KIND[kind], reader ? "Xdl::read" : "Json::read", KIND[kind]);
+	signal(SIGALRM, hang_handler);
+	alarm(20); // >= 1000 x the expected duration (microseconds)
+	Var v = reader ? Xdl::read(String(path.c_str())) : Json::read(String(path.c_str()));
+	alarm(0);
+	signal(SIGALRM, SIG_DFL);
+	if (writer.joinable())
+		writer.join();
+	(void)v.ok(); // whatever the reader makes of such a path -- only its return is asserted
+	for (auto& f : cleanup)
+		unlink(f.c_str());
+	// a following read of a regular file still works
+	std::string reg = dir + "/regular", text = "{\"k\":[1,2.5,\"x\\u0007\"],\"n\":null}";
+	VF_CHECK(ref::spit(reg, text), "harness: cannot write ", reg);
+	Var r = reader ? Xdl::read(String(reg.c_str())) : Json::read(String(reg.c_str()));
+	unlink(reg.c_str());
+	rmdir(dir.c_str());
+	Var want = decode_whole(text);
+	std::string why;
+	VF_CHECK(want.ok() && c06::same(want, r, why), "after reading ", KIND[kind], " a regular file no longer reads correctly: ", why, "; got ", c06::show(r));
+	vf::stats().cls(std::string("paths.") + KIND[kind]);
+}
+
 void vf_run_case(const std::string& part, const vf::Case& c)
 {
+	if (part == "paths") {
+		for (auto& o : c.ops)
+			if (o.name == "path")
+				run_path_case(o);
+		return;
+	}
 	if (part == "reuse") {
 		run_reuse_session(c);
 		return;
@@ -784,6 +889,24 @@ void vf_search(const vf::Args& a)
 			if (t.size() >= 4)
 				vf::stats().nt(vf::fnv(t));
 		});
+	}();
+	// (7) Json::read / Xdl::read on paths that cannot be read: all kinds x both readers, several rounds (enumerated)
+	[&]() {
+		if (a.worker != 0) // identical for every worker; one worker keeps a failing run short (each confirmation waits for the watchdog)
+			return;
+		uint64_t n = 0;
+		int rounds = (int)a.n(4, 12);
+		for (int r = 0; r < rounds; r++)
+			for (int kind = 0; kind < 8; kind++)
+				for (int reader = 0; reader < 2; reader++) {
+					vf::Case c;
+					c.ops.push_back(vf::Op("path", {kind, reader}));
+					if (!vf::runner().run("paths", c))
+						return;
+					n++;
+				}
+		vf::stats().nt_counted(16);
+		vf::stats().part("paths.all_kinds_x_both_readers", n, true);
 	}();
 	// (6) parser objects that are REUSED: 2..6 documents on one XdlParser with reset() in between, whole or chunked
 	[&]() {
